@@ -44,16 +44,22 @@ def _split_nodes_body(toks):
 def run(ck, n_gen=None):
     """Returns dict(stats, mismatches=[dict(text, part, detail)]) ; part in locations|nodes|body|validity|status."""
     n_gen = n_gen if n_gen is not None else (600 if ck.tier == "quick" else 6000)
-    key = "%s-%d-%s-%d" % (repo_hash(), ck.seed, ck.tier, n_gen)
+    import hashlib
     cdir = os.path.join(CACHE, "t2")
     os.makedirs(cdir, exist_ok=True)
-    cpath = os.path.join(cdir, key + ".json")
-    if os.path.exists(cpath):
-        return json.load(open(cpath))
     rng = random.Random("t2/%d" % ck.seed)
     texts = [t for _, t in corpus.repo_invocations()]
     n_corpus = len(texts)
     texts += EDGE + gen_texts(rng, n_gen)
+    # the cache is keyed by the tree, by the inputs and by the model (driver binary)
+    h = hashlib.sha256("\n".join(texts).encode())
+    try:
+        h.update(open(os.path.join(CACHE, "..", "lean", ".lake", "build", "bin", "driver"), "rb").read())
+    except OSError:
+        pass
+    cpath = os.path.join(cdir, "%s-%s.json" % (repo_hash(), h.hexdigest()[:16]))
+    if os.path.exists(cpath):
+        return json.load(open(cpath))
     outs = ck.rt_batch(["run " + hexs(t) for t in texts], binary="inproc", harness="inproc")
     lreq, idx = [], []
     stats = {"corpus": n_corpus, "edge": len(EDGE), "generated": n_gen, "accepted": 0, "rejected": 0, "panicked": 0, "tokens_compared": 0}
